@@ -1,5 +1,7 @@
-(* C03 — the binary reader decodes every valid encoding.  Proved so far about the reader model, for
-   every input and program: it never panics, always returns, keeps its invariant (Props/C06bin.v),
-   skipping equals reading and StepOut lands on the container end (Props/C08bin.v).  The headline
-   (every encoding of every forest) is decided by the oracle; statements re-exported. *)
-From IonV Require Export Props.C06bin Props.C08bin.
+(* C03 — the binary reader decodes every valid encoding.  Headline: Props/C03bin.v, [C03bin]: for every byte string the
+   specification decoder SpecBin.sdecode accepts and that lies within the reader's stated limits ([within_limits]: the
+   guards G1-G8 listed in that file), the reader model's full traversal yields exactly the values the specification
+   denotes — all representation freedoms (pads, non-minimal VarUInts, ordered structs, several symbol tables, version
+   markers, ...).  Also re-exported: for every input and program the reader model never panics, always returns, keeps
+   its invariant (Props/C06bin.v); skipping equals reading and StepOut lands on the container end (Props/C08bin.v). *)
+From IonV Require Export Props.C06bin Props.C08bin Props.C03bin.
